@@ -1,6 +1,6 @@
 SPECIFICATION Spec
 CONSTANT WINT = 5
-CONSTANT StdWidths = {2, 3, 5, 8}
+CONSTANT StdWidths = {2, 3, 5, 8, 16}
 CONSTANT MaxD = 7
 CONSTANT NarrowWidths = {2, 5}
 INVARIANT DesignInv
